@@ -13,7 +13,7 @@ def build(tier):
     src = hgen.preamble("C14", tier, ROOT) + "import vlib.hlib.c14 as L\n"
     conds = []
     T = 250 if q else 1500
-    K = 45 if q else 70
+    K = 45 if q else 60
     for ki, kind in enumerate(L.KINDS):
         for mode, (wd, late) in {"nodata": (False, False), "data": (True, False), "late": (True, True)}.items():
             name = f"abor_{kind}_{mode}"
@@ -22,14 +22,15 @@ def build(tier):
             pre = [f"0 <= k <= {kk}", "bs in (1, 3)", "0 <= follow_i <= 3"]
             if q:
                 pre += ["bs == 1" if kind in ("retr", "stor") else "bs == 3", "follow_i == k % 4"]
+            else:
+                pre += ["follow_i == (k + bs) % 4"]  # every follow-up is met at many arrival points and with both block sizes (the full product is 8 x the work)
             src += hgen.cond(name, params, pre, f"L.session({ki}, k, bs, {wd}, {late}, follow_i)", sig="hb.KEY")
             conds += [Cond(name, "prop", T, group=kind), Cond(name + "__twin", "twin", 60, group=kind)]
         # the same with a backend whose calls suspend (AsyncPathIO timing): ABOR can arrive INSIDE a backend call of the worker
         name = f"abor_{kind}_slow"
         ks = 24 if q else K
         pre = [f"0 <= k <= {ks}", "bs == 3", "0 <= follow_i <= 3", f"1 <= lat <= {1 if q else 3}", "late == (k % 2 == 1)" if q else "True"]
-        if q:
-            pre += ["follow_i == k % 4"]
+        pre += ["follow_i == k % 4"] if q else ["follow_i == (k + lat) % 4", "late == ((k + lat) % 2 == 1)"]
         src += hgen.cond(name, "k: int, bs: int, follow_i: int, lat: int, late: bool", pre, f"L.session({ki}, k, bs, True, bool(late), follow_i, lat)", sig="hb.KEY")
         conds += [Cond(name, "prop", T, group=kind), Cond(name + "__twin", "twin", 60, group=kind)]
     src += "\nfor _i in range(5):\n    L.session(_i, 7, 1, True, False, 1); L.session(_i, 0, 3, False, False, 2)\n"
@@ -43,7 +44,7 @@ def build(tier):
             "ABOR arrival": f"delivered at the k-th event-loop iteration after the 150 mark was written, k symbolic in 0..{K} (covers: before the data connection is made, every byte position, after completion); "
                             "data connection already made, never made, or made a few iterations after the 150 mark",
             "slow backend": f"every backend call of the session suspends for 1..{1 if q else 3} virtual ms (MemoryPathIO semantics, AsyncPathIO timing), ABOR at iteration 0..{24 if q else K}, data connection made at once or late",
-            "follow-up": f"{L.FOLLOW}: PWD, a fresh download, a fresh upload, a second ABOR" + (" (quick: chosen as k mod 4)" if q else " (symbolic)"),
+            "follow-up": f"{L.FOLLOW}: PWD, a fresh download, a fresh upload, a second ABOR" + (" (quick: chosen as k mod 4)" if q else " (chosen as (k + block size) mod 4)"),
         },
         outside=["ABOR pipelined before the 150 mark of its transfer was sent", "files longer than 7 bytes", "several concurrent transfers on one session", "real sockets / TLS"],
         explanation=(
